@@ -421,9 +421,43 @@ def rule_transp(run):
     check_formula(run, 'IAPWS97.sat :: x squared in place', fs, 'x', 'x * x', 'root is not squared', which=-1)
 
 
+def rule_endpoint(run):
+    run.rule('ENDPOINT', 'the two end points of the closed saturation interval map into tsat\'s own validity interval: '
+             'sat(lower t of region()) >= tsat lower bound and sat(tcritical) <= pcritical (constant folding of sat at two constants)', floor=2)
+    import math
+    from ..consteval import Interp
+    prog = run.prog
+    sat = prog.func('IAPWS97.sat')
+    env = {}
+    for name in ('nr4', 'tc_k', 'pstar4', 'tcritical', 'tcriticalk', 'pcritical'):
+        v = prog.fold_global(MOD, name)
+        if v is TOP: raise AnalysisError('constant %s does not fold' % name)
+        env[name] = v
+    _t, tsat_env = _guard_of(prog, prog.func('IAPWS97.tsat'))
+    p_iv = tsat_env.get('p')
+    reg = prog.func('IAPWS97.region')
+    facts = region_walk(prog, MOD, reg)
+    tlo = min([f[2]['t'].lo for f in facts if 't' in f[2]] or [0.01])
+    for label, t in (('lower end t = %s' % tlo, tlo), ('upper end t = tcritical', env['tcritical'])):
+        key = 'IAPWS97.sat/tsat :: %s' % label
+        try:
+            p = Interp(env, extra={'sqrt': math.sqrt}).call_function(sat.node, [t])
+        except AnalysisError as e:
+            run.unknown(key, 'sat() not evaluable by constant folding: %s' % e, where=sat.where()); continue
+        if p is None:
+            run.violated(key, 'sat(%r) returns None: the end point is outside sat\'s own interval' % t, where=sat.where()); continue
+        inside = (p_iv.lo <= p if p_iv.lo_closed else p_iv.lo < p) and (p <= p_iv.hi if p_iv.hi_closed else p < p_iv.hi)
+        if inside: run.ok(key, {'sat': p, 'tsat_interval': repr(p_iv)})
+        else:
+            run.violated(key, 'sat(%r) = %r lies outside tsat\'s validity interval %r, so tsat(sat(t)) returns None at this end point: '
+                         'the two are not inverses on the closed saturation interval' % (t, p, p_iv), where='IAPWS97.py (tsat)')
+    run.trust('whitelist interpreter evaluating the pure arithmetic function sat() at two constants (exact constant folding, math.sqrt allowed)')
+
+
 def check(run):
     run.guarded('CHAIN', rule_chain)
     run.guarded('USE', rule_use)
     run.guarded('DERIV', rule_deriv)
     run.guarded('GUARD', rule_guard)
     run.guarded('TRANSP', rule_transp)
+    run.guarded('ENDPOINT', rule_endpoint)
